@@ -137,7 +137,11 @@ class RayFan:
 
         # remove distortion
         wave_ref = self.optic.primary_wavelength
+        done = set()
         for field in self.fields:
+            if f'{field}' in done:  # a field listed twice shares one entry
+                continue
+            done.add(f'{field}')
             if wave_ref in self.wavelengths:
                 ref = data[f'{field}'][f'{wave_ref}']
                 x_offset = ref['x'][self.num_points//2]
